@@ -1397,15 +1397,20 @@ def _su3_parameters(U):
     # Grab the entries of the first row
     x, y, z = U[0, 0], U[1, 0], U[2, 0]
 
+    # Norm of the rest of the first column. For a unitary matrix this is sqrt(1 - |x|^2),
+    # but computed from y and z it does not suffer from cancellation when |x| is close to 1.
+    cf = np.sqrt(pow(np.absolute(y), 2) + pow(np.absolute(z), 2))
+    tol = 1e-11
+
     # Special case: if the top left element is 1, then we essentially
     # already have an SU(2) transformation embedded in an SU(3) transform,
     # so all we need to do is get the parameters of that SU(2) transform.
-    if np.isclose(x, 1):
+    if cf < tol and np.isclose(x, 1, rtol=0, atol=tol):
         params = [[0.0, 0.0, 0.0], [0.0, 0.0, 0.0], _su2_parameters(U[1:, 1:])]
     # Another special case: the modulus of the top left element is 1.
     # Then we need to do a transformation on modes 1 and 2 to make the top
     # entry 1, then an SU(2) transformation on modes 2 and 3 with what's left.
-    elif np.isclose(np.abs(x), 1):
+    elif cf < tol:
         # Compute the required phase matrix and embed into SU(3)
         phase_su2 = np.array([[np.conj(x), 0], [0, x]])
 
@@ -1424,7 +1429,6 @@ def _su3_parameters(U):
 
     else:
         # Typical case
-        cf = np.sqrt(1 - pow(np.absolute(x), 2))
         capY, capZ = y / cf, z / cf
 
         # Build the SU(2) transformation matrices
